@@ -1,6 +1,7 @@
 package checks
 
 import (
+	"bytes"
 	"context"
 	"encoding/json"
 	"fmt"
@@ -8,6 +9,7 @@ import (
 	"sync"
 
 	"git.defalsify.org/vise.git/engine"
+	"git.defalsify.org/vise.git/persist"
 	"git.defalsify.org/vise.git/resource"
 	"git.defalsify.org/vise.git/vm"
 
@@ -103,6 +105,7 @@ func c17Session(d c17AppDef, o lsOpts) (*app.Session, func()) {
 	a := d.build()
 	o.Cfg = d.cfg
 	s, cl := openBackend(a, o)
+	s.ReuseBuf = true // the front end reads every request into the same buffer
 	if d.first {
 		env := s.Env
 		s.First = func(ctx context.Context, sym string, input []byte) (resource.Result, error) {
@@ -224,6 +227,74 @@ func c17Exec(d c17AppDef, o lsOpts, h []string, pos int, refused string, style i
 	return "", "", reqs
 }
 
+// c17Loop: the same question asked of engine.Loop, the library's own driver: the valid prefix of the history
+// and then the over-long line are fed to ONE Loop call (engine with persister). Loop must stop with an error at
+// that line, having written exactly the pages of the prefix, and the session it saved is the session after the prefix.
+func c17Loop(d c17AppDef, h []string, pos int, refused string) (sig, msg string, reqs int) {
+	all := append([]string{""}, h...)
+	if pos < 1 || pos > len(all) {
+		return "", "", 0
+	}
+	o := lsOpts{Mode: "persisted", Backend: "mem", Cfg: d.cfg}
+	base, cl := c17Session(d, o)
+	defer cl()
+	want := ""
+	for _, in := range all[:pos] {
+		r := base.Request([]byte(in))
+		reqs++
+		if r.ExecErr != "" || r.FlushErr != "" || !r.Cont || r.Panic != "" {
+			return "", "", reqs // the prefix itself ends the loop: nothing to ask
+		}
+		if len(r.Out) > 0 {
+			want += r.Out + "\n"
+		}
+	}
+	bst, bca, _, err := base.Snapshot()
+	if err != nil {
+		return "", "", reqs
+	}
+	test, cl2 := c17Session(d, o)
+	defer cl2()
+	en := engine.NewEngine(test.Cfg, test.Res)
+	store := test.Open()
+	store.SetSession(test.Cfg.SessionId)
+	en = en.WithPersister(persist.NewPersister(store))
+	if test.First != nil {
+		en = en.WithFirst(test.First)
+	}
+	lines := strings.Join(append(append([]string{}, all[1:pos]...), refused, "1"), "\n") + "\n"
+	var w bytes.Buffer
+	var lerr error
+	pan := ""
+	func() {
+		defer func() {
+			if p := recover(); p != nil {
+				pan = fmt.Sprint(p)
+			}
+		}()
+		lerr = engine.Loop(context.Background(), en, strings.NewReader(lines), &w, []byte(all[0]))
+	}()
+	reqs += pos + 1
+	where := fmt.Sprintf("%s through engine.Loop: lines %q then a line of %d bytes (%s...)", d.name, all[1:pos], len(refused), refused[:8])
+	if pan != "" {
+		return "panic", where + ": panic " + pan, reqs
+	}
+	if lerr == nil {
+		return "loop-accepts-over-long-line", fmt.Sprintf("%s: Loop returns no error; output %q", where, short(w.String())), reqs
+	}
+	if w.String() != want {
+		return "loop-output-differs", fmt.Sprintf("%s: Loop wrote %q, the pages of the valid lines are %q", where, short(w.String()), short(want)), reqs
+	}
+	st, ca, _, err := test.Snapshot()
+	if err != nil {
+		return "loop-session-lost", fmt.Sprintf("%s: no readable session record after the loop ended: %v", where, err), reqs
+	}
+	if app.StateKey(st, ca) != app.StateKey(bst, bca) {
+		return "loop-session-changed-by-refused-line", fmt.Sprintf("%s: the loop saved %s; the session after the valid lines is %s", where, app.StateKey(st, ca), app.StateKey(bst, bca)), reqs
+	}
+	return "", "", reqs
+}
+
 func c17Replay(w json.RawMessage) (string, string) {
 	c17CustomFormat()
 	var wit c17Witness
@@ -232,6 +303,14 @@ func c17Replay(w json.RawMessage) (string, string) {
 	}
 	if wit.App == "flush-before-exec" {
 		return c17FlushFirst(wit.Opts)
+	}
+	if wit.Opts.Mode == "engine-loop" {
+		d, ok := c17Def(wit.App)
+		if !ok {
+			return "bad-witness", "app"
+		}
+		s, m, _ := c17Loop(d, wit.Inputs, wit.Pos, string(wit.Refused))
+		return s, m
 	}
 	d, ok := c17Def(wit.App)
 	if !ok {
@@ -314,6 +393,22 @@ func c17Run(c *mc.Ctx) {
 		c.Count("evaluations", 1)
 	}
 	for _, d := range c17Apps {
+		histories(d.inputs, depth, func(h []string) {
+			if !c.Mine() {
+				return
+			}
+			for pos := 1; pos <= len(h)+1; pos++ {
+				for _, rf := range []string{strings.Repeat("a", 256), strings.Repeat("1", 300), strings.Repeat("1", 511)} {
+					sig, msg, reqs := c17Loop(d, h, pos, rf)
+					c.Count("evaluations", 1)
+					c.Count("engine_loop_runs", 1)
+					c.Count("transitions", int64(reqs))
+					if sig != "" {
+						c.Fail(sig, msg, c17Witness{App: d.name, Opts: lsOpts{Mode: "engine-loop"}, Inputs: h, Pos: pos, Refused: qstr(rf)})
+					}
+				}
+			}
+		})
 		for _, o := range backends {
 			histories(d.inputs, depth, func(h []string) {
 				if !c.Mine() {
